@@ -151,6 +151,19 @@ def Transfer (interp : Nat → Val → Option Nat) (s : Stk) (dest : Val) : Val 
       (.stk f r.1.cfg r.1.xs, r.2)
   | _ => (dest, false)
 
+/-- `s.Transfer(s)` on a stack created with a capacity, without push policy and with nesting allowed (object identity: source and
+destination are ONE instance). The room test reads the one length on both sides (`n > k - n`: refused, nothing changes); otherwise the
+copy loop runs over a length that grows while it copies, every `push` appends while there is room, so the stack ends up holding its
+former content repeated cyclically up to the capacity - and the flag is false unless it was empty. (Without a capacity the loop never
+ends: outside the model.) -/
+def transferSelf (s : Stk) : Stk × Bool :=
+  let n := s.xs.length
+  let k := (s.cfg.cap - 1).toNat
+  if s.readOnly then (s, false)
+  else if n > k - n then (s, false)
+  else if n == 0 then (s, true)
+  else ({ s with xs := (List.range k).map (fun j => s.xs.getD (j % n) .nil) }, false)
+
 end Stk
 
 /-! ## Exported layer: what `Stack.X` does on an initialised instance -/
